@@ -66,7 +66,7 @@ CLAIMS = {
         "note": _T + "YAML/JSON parsing, glob and $VAR expansion are outside; dictionaries are built directly",
     },
     "C13": {
-        "text": "Bounded: K13a proves for 1-2 (3) stub rules with fully symbolic phase/sub-phase/disable/severity/violations, symbolic --all_phases and skipped phases, that check_rules analyses exactly the enabled rules of non-skipped phases up to the first failing phase; K13b proves the call order of rule_list.fix; K14b proves through apply_rules + main that the report after --fix is the gated report.",
+        "text": "Bounded: K13a proves for 1-2 (3) stub rules with fully symbolic phase/sub-phase/disable/severity/violations, symbolic --all_phases and skipped phases, that check_rules analyses exactly the enabled rules of non-skipped phases up to the first failing phase; K13b proves the call order of rule_list.fix; K14b proves through apply_rules + main that the report after --fix is the gated report. K08b proves on every token list of <=7 (8) tokens that the indent refresh (run before phase 4 and when phase 1 is skipped) leaves the token sequence alone.",
         "design_ref": "DESIGN.md section 4, C13 (K13a, K13b, K14b)",
         "note": _T + "stub rules; at most 3 rules",
     },
@@ -86,12 +86,12 @@ CLAIMS = {
         "note": _T + "stub rules; the line-locality of real rule fixes (L20) not covered",
     },
     "C15": {
-        "text": "Bounded: K14b runs the real __main__.main aggregation (jobs 1 and 2 through Pool.imap's contract) over 1-3 files with symbolic per-file outcomes and proves order of output and JSON entries; L15 is a purity step: processing a file (parse, fix, check, report) leaves every module-level and class-level mutable container of vsg.* unchanged, so the result for a file cannot depend on what a worker processed before. L15b runs two corpus files through the real config.New + apply_rules with one shared configuration object (the --jobs 1 path) under engine-forked --fix / --all_phases / --fix_only and compares the second file's report, JSON entry, exit contribution and fixed text with processing it alone; K12e proves config.New leaves nothing behind for the next call.",
+        "text": "Bounded: K14b runs the real __main__.main aggregation (jobs 1 and 2 through Pool.imap's contract) over 1-3 files with symbolic per-file outcomes and proves order of output and JSON entries; L15 is a purity step: processing a file (parse, fix, check, report) leaves every module-level and class-level mutable container of vsg.* unchanged, so the result for a file cannot depend on what a worker processed before. L15b runs two corpus files through the real config.New + apply_rules with one shared configuration object (the --jobs 1 path) under engine-forked --fix / --all_phases / --fix_only and compares the second file's report, JSON entry, exit contribution and fixed text with processing it alone; K12e proves config.New leaves nothing behind for the next call. L15's snapshot covers module-level and class-level containers and module-level instances of product classes, measured after a warm-up run so that lazily built caches do not count.",
         "design_ref": "DESIGN.md section 4 C15",
         "note": _T + "OS scheduling, pickling and real process pools are outside; imap = lazy, in submission order",
     },
     "C17": {
-        "text": "Bounded: K17 sets, for each non-deprecated rule (80 per quick run, all in thorough), every configurable attribute to a symbolic value of its type (yes/no options also as YAML booleans), emits the configuration, configures a fresh rule from it and proves the second emission identical and the effective values equal; K17b does the whole rule list under styles none/jcl/indent_only; K17c pushes strings over a 14-symbol alphabet of serialiser-special characters through the real json.dump of --output_configuration and the real yaml reader.",
+        "text": "Bounded: K17 sets, for each non-deprecated rule (80 per quick run, all in thorough), every configurable attribute to a symbolic value of its type (yes/no options also as YAML booleans), emits the configuration, configures a fresh rule from it and proves the second emission identical and the effective values equal; K17b does the whole rule list under styles none/jcl/indent_only; K17c pushes strings over a 14-symbol alphabet of serialiser-special characters through the real json.dump of --output_configuration and the real yaml reader. K17b additionally writes one yes/no option per distinct option name as True / False / 'yes' / 'no' and proves the effective attribute is identical after the emitted-configuration round trip.",
         "design_ref": "DESIGN.md section 4 C17",
         "note": _T + "JSON/YAML replaced by a structural copy with JSON's coercions; behaviour on VHDL input under the emitted configuration (L17) not covered",
     },
